@@ -256,6 +256,7 @@ pub fn gen_doc(opts: &SymOpts) -> SymDoc {
     let n = range("sym.records", 0, opts.max_records as u64) as u32;
     let mut addr: u64 = 0x1000;
     let mut last_cfi: (u64, u64) = (0, 0);
+    let mut last_win: (u64, u64) = (0, 0);
     let mut enabled: Vec<u32> = Vec::new();
     for k in [Kinds::INFO, Kinds::FILE, Kinds::ORIGIN, Kinds::PUBLIC, Kinds::FUNC, Kinds::WIN, Kinds::CFI, Kinds::BLANK] {
         if kinds.has(k) {
@@ -351,11 +352,25 @@ pub fn gen_doc(opts: &SymOpts) -> SymDoc {
                         }
                     }
                 };
-                let a = num_u64(ext, 0x20000);
+                // placement relative to the previous STACK WIN record: share its last byte,
+                // adjacent, same start with another size, exact duplicate, strictly inside
+                let (a, wsize) = match ch("sym.win.place", 8) {
+                    0 if last_win.1 > 0 => (hex(last_win.0 + last_win.1 - 1), num_u32(ext, 0x200)),
+                    1 if last_win.1 > 0 => (hex(last_win.0 + last_win.1), num_u32(ext, 0x200)),
+                    2 if last_win.1 > 0 => (hex(last_win.0), hex(1 + ch("sym.win.other_size", 0x1ff) as u64)),
+                    3 if last_win.1 > 0 => (hex(last_win.0), hex(last_win.1)),
+                    4 if last_win.1 > 1 => (hex(last_win.0 + 1), hex(last_win.1 - 1)),
+                    _ => {
+                        let a0 = range("sym.win.addr", 0x1000, 0x20000);
+                        let sz = range("sym.win.size", 0, 0x200);
+                        last_win = (a0, sz);
+                        (if ext && chance("sym.win.addr.extreme", 1, 10) { num_u64(true, 0x20000) } else { hex(a0) }, if ext && chance("sym.win.size.extreme", 1, 10) { num_u32(true, 0x200) } else { hex(sz) })
+                    }
+                };
                 let rest = if ty == b'4' { win_program(ext) } else { vec![*simkit::pick("sym.win.bp", &[b'0', b'1'])] };
                 let mut l = b"STACK WIN ".to_vec();
                 l.push(ty);
-                for f in [a, num_u32(ext, 0x200), num_u32(ext, 16), num_u32(ext, 16), num_u32(ext, 64), num_u32(ext, 32), num_u32(ext, 256), num_u32(ext, 64)] {
+                for f in [a, wsize, num_u32(ext, 16), num_u32(ext, 16), num_u32(ext, 64), num_u32(ext, 32), num_u32(ext, 256), num_u32(ext, 64)] {
                     l.push(b' ');
                     l.extend_from_slice(&f);
                 }
